@@ -23,6 +23,7 @@ import itertools
 import json
 import random
 import signal
+import time
 import warnings
 from fractions import Fraction
 
@@ -63,7 +64,7 @@ def fam_exh2(quick):
     if quick:
         cs = [(1, 1), (1, -1), (2, 1), (-1, 2), (2, 3)]
         bs = [-2, -1, 1, 2, 4]
-        Us = [(1, 1), (2, 3), (3, 1), (3, 3)]
+        Us = [(1, 1), (2, 3), (3, 3)]
         vals = (-3, -2, -1, 0, 1, 2, 3)
     else:
         cs = [(1, 0), (0, 1), (1, 1), (1, -1), (2, 1), (1, 2), (2, -1), (-1, 2), (3, 2), (2, 3), (2, -3), (-3, 2)]
@@ -531,7 +532,7 @@ def contract(inst, minimize, cfg, res, orc):
                         raise AssertionError(f"oracle suspect: solver point {x} passes the feasibility contract and "
                                              f"beats the exact optimum {d['value']}: {inst} minimize={minimize}")
     elif st == "INFEASIBLE":
-        if "max_nodes" in cfg and res.iterations >= cfg["max_nodes"]:
+        if budget_exhausted(cfg, res):
             pass  # node budget exhausted (max_nodes is not among the property's configurations): see notes
         elif d["status"] != "infeasible":
             v.append((P + "ensures:infeasible-means-no-integer-point",
@@ -557,12 +558,17 @@ def case_of(inst, minimize, cfg, fam, base_cfg=None):
     return cs
 
 
+def budget_exhausted(cfg, res):
+    return "max_nodes" in cfg and res.iterations >= cfg["max_nodes"]
+
+
 def invariance(inst, minimize, cfg, got, base_cfg, base):
-    """got/base = (kind, status, cx). Only for solution_limit == 1."""
+    """got/base = (kind, status, cx, node budget exhausted). Only for solution_limit == 1."""
     if base[0] != "result" or cfg.get("gap_tol") != base_cfg.get("gap_tol"):
         return None  # the clause is about warm_start / heuristics / LNS only
-    if "max_nodes" in cfg and got[0] == "result" and {got[1], base[1]} == {"OPTIMAL", "FEASIBLE"}:
-        return None  # node budget reached in one of the runs (open-box family): FEASIBLE claims nothing
+    if (got[0] == "result" and got[3]) or base[3]:
+        return None  # node budget (max_nodes, set only in the open-box family) exhausted in one of the runs: what is
+        #              reported then is outside the property's configurations (see notes: outside-quantifier)
     if got[0] != "result":
         return f"plain run returns {base[1]} but this configuration gives no verdict ({got[0]}: {got[1]})"
     if got[1] != base[1]:
@@ -613,6 +619,7 @@ def work(unit):
     from oracles.milp_exact import solve as exact
     rng = random.Random(seed)
     _REACH.clear()
+    t0 = time.process_time()
     orc = exact(inst["c"], inst["A"], inst["b"], inst["integers"])
     out = {"n": 0, "keys": [], "viol": [], "stat": {}, "sample": None, "noverdict": []}
 
@@ -648,12 +655,14 @@ def work(unit):
             bump("ws:" + cfg["ws_kind"])
             if kind == "result":
                 viols, st, cx = contract(inst, minimize, cfg, res, orc)
-                got = ("result", st, cx)
+                got = ("result", st, cx, budget_exhausted(cfg, res))
                 bump("status:" + st)
+                if got[3]:
+                    bump("node-budget-exhausted(open-box family)")
                 for ob, det in viols:
                     out["viol"].append((ob, case_of(inst, minimize, cfg, fam), det))
             else:
-                got = (kind, res, None)
+                got = (kind, res, None, False)
                 bump("no-verdict:" + kind)
                 if len(out["noverdict"]) < 3:
                     out["noverdict"].append({"case": case_of(inst, minimize, cfg, fam), "what": f"{kind}: {res}"})
@@ -684,6 +693,7 @@ def work(unit):
                                                          f"but {fl(d['x'])} is integer-feasible"})
     for k, n_ in _REACH.items():
         bump("reached:" + k, n_)
+    bump("cpu_ms:" + fam, int(1000 * (time.process_time() - t0)))
     return out
 
 
@@ -775,7 +785,11 @@ def run(ctx: Ctx):
         "bounded scope: n <= 5 variables, <= 5 user rows, box U <= 3 (explicit rows), see scopes",
         "a raise or a time-out of solve_milp is not judged by the property except through verdict-invariance "
         "(reported under c04_stats no-verdict:*)",
-        "with an open box (family random-open-box) the oracle is one-sided: only witnesses are used",
+        "with an open box (family random-open-box, outside the property's 'bounded MILPs', kept for the UNBOUNDED clause) "
+        "the oracle is one-sided: only witnesses are used; runs there carry max_nodes=300 and a run that exhausts this "
+        "node budget is not judged on INFEASIBLE / verdict-invariance (max_nodes is not among the property's "
+        "configurations; the code reports budget exhaustion without incumbent as INFEASIBLE - see c04_stats "
+        "outside-quantifier:* and the examples in the notes)",
     ]
     ctx.trusted += ["oracles/milp_exact.py (box enumeration; every witness re-verified exactly)",
                     "oracles/lp_exact.py (Fraction simplex, every answer validated by its certificate)"]
@@ -799,13 +813,13 @@ def replay(rec) -> int:
         kind, res = call_solver(inst, mn, cfg)
         if kind != "result":
             print(f"{label}: {kind}: {res}   cfg={cfg}")
-            return (kind, res, None)
+            return (kind, res, None, False)
         viols, st, cx = contract(inst, mn, cfg, res, orc)
         print(f"{label}: status={st} objective={res.objective} solution={res.solution} solutions={res.solutions} cfg={cfg}")
         for ob, det in viols:
             print("   VIOLATES", ob, "::", det)
             bad.append(ob)
-        return ("result", st, cx)
+        return ("result", st, cx, budget_exhausted(cfg, res))
 
     got = one(cs["cfg"], "run")
     if "baseline_cfg" in cs:
